@@ -142,3 +142,7 @@ package gnosis
 //@   requires i != nil && msg != nil && typeis(msg.Extra, "*p2pmsg.DecryptionKeys_Gnosis") && wfExtraKeys(msg) && gnosisOf(msg) != nil && gnosisOf(msg).TxPointer <= 2147483647 && len(msg.Keys) >= 1 && len(msg.Keys) <= MAXMSG
 //@   ensures ret0 == nil ==> (evcount("setTxPointer") == old(evcount("setTxPointer")) + 1 && evarg("setTxPointer", 1, old(evcount("setTxPointer"))) == gnosisOf(msg).TxPointer + len(msg.Keys) - 1 && evarg("setTxPointer", 2, old(evcount("setTxPointer"))) == 0 && evarg("setTxPointer", 3, old(evcount("setTxPointer"))))
 //@   opt frame = off
+//@ // the comparison handed to sort.Slice orders the elements of the slice being sorted (the copy), byte-wise
+//@ func sortIdentityPreimages$1
+//@   requires 0 <= i && i < len(sorted) && 0 <= j && j < len(sorted)
+//@   ensures ret0 <==> bytesLT(content(sorted[i]), content(sorted[j]))
